@@ -37,20 +37,59 @@ class FnSpec:
 
     @property
     def key(self):
+        if getattr(self, '_key', None):
+            return self._key
         return '%s::%s::%s' % (self.file, short_container(self.container), self.name)
 
 
-def short_container(c):
+def _strip_generics_prefix(c):
+    """`impl<...> X` -> `X` (bracket matched)"""
     c = c.strip()
+    m = re.match(r'impl\b\s*', c)
+    if not m:
+        return c
+    c = c[m.end():]
+    if c.startswith('<'):
+        d = 0
+        for i, ch in enumerate(c):
+            if ch == '<':
+                d += 1
+            elif ch == '>' and c[i - 1] != '-':
+                d -= 1
+                if d == 0:
+                    return c[i + 1:].strip()
+    return c
+
+
+def _drop_type_generics(t):
+    """`Prover<'g, G, T>` -> `Prover`"""
+    i = t.find('<')
+    return t if i < 0 else t[:i]
+
+
+def short_container(c):
+    """stable short name of an impl/trait block: `Trait<Args> for Type`, `Type`, `trait Name`"""
+    c = ' '.join(c.split())
     if not c:
         return ''
-    m = re.search(r'\bfor\s+([A-Za-z_]\w*)', c)
-    if m:
-        t = re.search(r'(?:impl|trait)\b(?:<.*?>)?\s*([\w:]+(?:<[^>]*>)?)\s+for', c)
-        tr = t.group(1).split('<')[0] if t else ''
-        return (tr + ' for ' if tr else '') + m.group(1)
-    m = re.search(r'(?:impl|trait)\b\s*(?:<[^>]*>\s*)?([A-Za-z_]\w*)', c)
-    return m.group(1) if m else c
+    if c.startswith('trait') or c.startswith('pub trait'):
+        m = re.search(r'trait\s+(\w+)', c)
+        return 'trait ' + m.group(1)
+    c = _strip_generics_prefix(c)
+    c = re.split(r'\bwhere\b', c)[0].strip()
+    # split on top-level ` for `
+    d = 0
+    for i in range(len(c)):
+        ch = c[i]
+        if ch == '<':
+            d += 1
+        elif ch == '>' and c[i - 1] != '-':
+            d -= 1
+        elif d == 0 and c.startswith(' for ', i):
+            tr = c[:i].strip()
+            ty = _drop_type_generics(c[i + 5:].strip())
+            return '%s for %s' % (tr, ty)
+    return _drop_type_generics(c)
 
 
 def parse_props(s):
@@ -261,6 +300,7 @@ def weave_file(file, src, fnspecs, blockitems, canary=False):
         if spec.file != file:
             continue
         f, b = locate_fn(m, spec)
+        spec._key = '%s::%s::%s' % (file, short_container(b.header if b is not None else ''), f.name)
         key = spec.key
         contracted[f.kw] = key
         for c in spec.requires + spec.ensures:
